@@ -148,6 +148,55 @@ impl Snap {
         }
     }
 
+    /// decisions taken at x (node, label), also when the result is undefined
+    pub fn decisions_at(&self, x: &[Q]) -> Result<Vec<(usize, usize)>, String> {
+        let mut cur = self.root;
+        let mut out = vec![];
+        loop {
+            if out.len() > self.nodes.len() {
+                return Err("cycle while routing".into());
+            }
+            let nd = self.nodes.get(&cur).ok_or("dangling")?;
+            if nd.isleaf {
+                return Ok(out);
+            }
+            if nd.ncols != x.len() {
+                return Err("dimension".into());
+            }
+            let mut label = 0usize;
+            for i in 0..nd.mat.len() {
+                if (&dot(&nd.mat[i], x) - &nd.bias[i]).sign() <= 0 {
+                    label += 1 << i;
+                }
+            }
+            if label >= self.k {
+                return Err("label out of range".into());
+            }
+            out.push((cur, label));
+            match nd.children[label] {
+                None => return Ok(out),
+                Some(c) => cur = c,
+            }
+        }
+    }
+
+    /// closed polytope of the route taken at x (binary trees): rows a.x <= b
+    pub fn route_rows(&self, x: &[Q]) -> Result<Vec<(Vec<Q>, Q)>, String> {
+        let mut rows = vec![];
+        for (p, l) in self.decisions_at(x)? {
+            let nd = &self.nodes[&p];
+            if nd.mat.len() != 1 {
+                return Err(format!("decision {p} has {} rows", nd.mat.len()));
+            }
+            if l == 1 {
+                rows.push((nd.mat[0].clone(), nd.bias[0].clone()));
+            } else {
+                rows.push((nd.mat[0].iter().map(|v| -v).collect(), -nd.bias[0].clone()));
+            }
+        }
+        Ok(rows)
+    }
+
     pub fn route_plain(&self, x: &[Q]) -> Result<Option<(Route, AffMap)>, String> {
         let mut g = vec![];
         self.route(&AffMap::identity(self.in_dim), self.in_dim, x, &mut g)
